@@ -163,6 +163,17 @@ def flow_geometric(m, I, blocks):
     for k, g in enumerate(m.geo):
         own = list(g.pulses)
         ln = blocks[k]['lines']
+        # shape of the block: one row per pulse of the object, framed by one line for each end that is not on the ground plane
+        # (the pulse of a grounded end is a row of the block; such an end has no E or J line of its own)
+        kinds = ['end' if x[0] in ('E', 'J') else 'row' for x in ln]
+        free_ends = [np.array(g.endpoints[e], dtype=float) for e in (0, 1) if not g.is_ground[e]]
+        nrow = sum(1 for p in own if not any(np.max(np.abs(np.array(p.point, dtype=float) - ep)) <= tol for ep in free_ends))
+        if np.max(np.abs(np.array(g.endpoints[0], dtype=float) - np.array(g.endpoints[1], dtype=float))) <= tol:
+            nrow = len(own)             # an object closed on itself: the closing pulse is a row of the block as well
+        want = ([] if g.is_ground[0] else ['end']) + ['row'] * nrow + ([] if g.is_ground[1] else ['end'])
+        if kinds != want:
+            return ('block of object %d (%d pulses away from its free ends, ends on the ground plane: %s) has the lines %s'
+                    % (k + 1, nrow, [bool(x) for x in g.is_ground], ' '.join(str(x[0]) for x in ln)))
         for e in (0, 1):
             if g.is_ground[e]:
                 continue
@@ -238,6 +249,33 @@ def curved_flow_cases(seed):
     return out
 
 
+def shared_ground_cases(seed):
+    """several wires standing on one ground point (a vertical and slopers from one stake, a delta on its apex, three wires from
+    one point; listed in either order, drawn from or towards the ground): (name, violation or None)"""
+    from mininec.mininec import Mininec, Wire, ideal_ground
+    r = 0.002
+
+    def W(n, p, q):
+        return Wire(n, *[float(x) for x in p], *[float(x) for x in q], r)
+    O = (1.0, -2.0, 0.0)
+    T1, T2, T3 = (1.0, -2.0, 6.0), (5.0, -2.0, 4.0), (1.0, 2.0, 5.0)
+    cases = [('vertical+sloper', [W(5, O, T1), W(5, O, T2)]), ('sloper+vertical', [W(5, O, T2), W(5, O, T1)]),
+             ('vertical+sloper-down', [W(5, O, T1), W(5, T2, O)]), ('both-down', [W(5, T1, O), W(5, T2, O)]),
+             ('three-from-one-stake', [W(4, O, T1), W(5, T2, O), W(4, O, T3)]),
+             ('delta-on-apex', [W(5, O, T2), W(5, O, T3), W(4, T2, T3)]),
+             ('delta-on-apex-reordered', [W(4, T3, T2), W(5, T2, O), W(5, O, T3)])]
+    out = []
+    for j, (name, ws) in enumerate(cases):
+        m = Mininec(10.0, ws, media=[ideal_ground])
+        rs = np.random.RandomState(seed + 100 + j)
+        N = len(m.pulses)
+        I = rs.randint(-9, 10, N) + 1j * rs.randint(-9, 10, N)
+        m.current = I.astype(complex)
+        blocks = parse_current_table(m.currents_as_mininec())
+        out.append((name, flow_geometric(m, I, blocks) or kcl_geometric(m, blocks)[0]))
+    return out
+
+
 def scaled_bad(m, I, blocks, sc):
     """the same currents at another level (microampere, picoampere, far below, kiloampere): the report is linear in the
     currents — the table must be the unit-level table times the factor"""
@@ -281,7 +319,7 @@ def classify(r, blocks, obs=None, I=None):
 
 
 def replay_curved(rp):
-    for name, bad in curved_flow_cases(rp['current_seed']):
+    for name, bad in curved_flow_cases(rp['current_seed']) + shared_ground_cases(rp['current_seed']):
         if name == rp['name']:
             print('replay', name, '->', bad or 'property holds')
             return 1 if bad else 0
@@ -326,6 +364,7 @@ def replay(rp):
 
 def run(ck):
     ck.proof_side()
+    ck.cov['further_clauses'] = 'shape of every CURRENT DATA block (no end line for an end on the ground plane); seven structures of wires standing on one ground point'
     d = ck.get_driver()
     n = 1200 if ck.tier == 'quick' else 15000
     dis, viol = [], []
@@ -405,6 +444,11 @@ def run(ck):
     for name, bad in curved_flow_cases(cseed):
         ck.case(('curved', name), True)
         ck.count('curved_flow_cases')
+        if bad:
+            ck.violation(dict(kind='curved-flow', name=name, current_seed=cseed, observed=bad))
+    for name, bad in shared_ground_cases(cseed):
+        ck.case(('shared-ground', name), True)
+        ck.count('shared_ground_cases')
         if bad:
             ck.violation(dict(kind='curved-flow', name=name, current_seed=cseed, observed=bad))
     # the same clause on the wire graphs, independent of the model
